@@ -13,16 +13,24 @@ pub struct A16(pub [u8; 16]);
 #[repr(C)]
 #[derive(Clone, Copy, Pod, Zeroable)]
 pub struct Zst;
+/// size is a proper multiple of the alignment (12 / 4 and 24 / 8): padding must follow the
+/// alignment, not the size
+#[repr(C)]
+#[derive(Clone, Copy, Pod, Zeroable)]
+pub struct T12(pub [u32; 3]);
+#[repr(C)]
+#[derive(Clone, Copy, Pod, Zeroable)]
+pub struct T24(pub [u64; 3]);
 
 #[repr(C, align(16))]
 struct Arena<const N: usize>([u8; N]);
 
 /// (size, align) of the element type names used on case lines
 pub fn elem_params(t: &str) -> (usize, usize) {
-    match t { "u8" => (1, 1), "u16" => (2, 2), "b3" => (3, 1), "u32" => (4, 4), "u64" => (8, 8), "a16" => (16, 16), "m35" => (35, 1), "zst" => (0, 1), _ => panic!("elem type {t}") }
+    match t { "u8" => (1, 1), "u16" => (2, 2), "b3" => (3, 1), "u32" => (4, 4), "u64" => (8, 8), "a16" => (16, 16), "m35" => (35, 1), "zst" => (0, 1), "t12" => (12, 4), "t24" => (24, 8), _ => panic!("elem type {t}") }
 }
 pub fn prefix_width(l: &str) -> usize { match l { "p16" => 2, "p32" => 4, "p64" => 8, "p128" => 16, _ => panic!("prefix {l}") } }
-pub const ELEMS: &[&str] = &["u8", "u16", "b3", "u32", "u64", "a16", "m35", "zst"];
+pub const ELEMS: &[&str] = &["u8", "u16", "b3", "u32", "u64", "a16", "m35", "zst", "t12", "t24"];
 pub const PREFIXES: &[&str] = &["p16", "p32", "p64", "p128"];
 
 macro_rules! dispatch {
@@ -36,6 +44,8 @@ macro_rules! dispatch {
             ("a16", "p16") => $f::<A16, PodU16>($($arg),*), ("a16", "p32") => $f::<A16, PodU32>($($arg),*), ("a16", "p64") => $f::<A16, PodU64>($($arg),*), ("a16", "p128") => $f::<A16, PodU128>($($arg),*),
             ("m35", "p16") => $f::<ExtraAccountMeta, PodU16>($($arg),*), ("m35", "p32") => $f::<ExtraAccountMeta, PodU32>($($arg),*), ("m35", "p64") => $f::<ExtraAccountMeta, PodU64>($($arg),*), ("m35", "p128") => $f::<ExtraAccountMeta, PodU128>($($arg),*),
             ("zst", "p16") => $f::<Zst, PodU16>($($arg),*), ("zst", "p32") => $f::<Zst, PodU32>($($arg),*), ("zst", "p64") => $f::<Zst, PodU64>($($arg),*), ("zst", "p128") => $f::<Zst, PodU128>($($arg),*),
+            ("t12", "p16") => $f::<T12, PodU16>($($arg),*), ("t12", "p32") => $f::<T12, PodU32>($($arg),*), ("t12", "p64") => $f::<T12, PodU64>($($arg),*), ("t12", "p128") => $f::<T12, PodU128>($($arg),*),
+            ("t24", "p16") => $f::<T24, PodU16>($($arg),*), ("t24", "p32") => $f::<T24, PodU32>($($arg),*), ("t24", "p64") => $f::<T24, PodU64>($($arg),*), ("t24", "p128") => $f::<T24, PodU128>($($arg),*),
             _ => panic!("type combination"),
         }
     };
@@ -174,6 +184,14 @@ fn hist_op<T: Pod, L: spl_list_view::PodLength>(h: &mut Hist, op: &[&str]) -> (S
     if failed && after != before && op[0] != "set" { err = Some("a failed operation changed bytes of the buffer".into()); }
     match (op[0], &mut h.shadow) {
         ("init", sh) => {
+            {
+                // a buffer in the documented layout (prefix, padding up to the element *alignment*, whole elements) must initialise
+                let al = std::mem::align_of::<T>(); let pad = if al <= 1 || wl % al == 0 { 0 } else { al - wl % al }; let hdr = wl + pad;
+                let base = h.arena.0.as_ptr() as usize + h.offset;
+                let well_formed = h.n >= hdr && (base + hdr) % al == 0 && (if sz == 0 { h.n == hdr } else { (h.n - hdr) % sz == 0 });
+                if well_formed && failed { err = Some("init rejected a buffer in the documented layout (count prefix, padding to the element alignment, whole elements)".into()); }
+                if let Some(Ok(x)) = &r { if well_formed && sz > 0 && !x.ends_with(&format!("cap={}", (h.n - hdr) / sz)) { err = Some("capacity is not (buffer - header) / element size".into()); } }
+            }
             if let Some(Ok(_)) = r { *sh = Some(vec![]); let al = std::mem::align_of::<T>(); let pad = if al <= 1 || wl % al == 0 { 0 } else { al - wl % al }; h.cap = if sz == 0 { 0 } else { (h.n - wl - pad) / sz }; }
         }
         ("reopen", Some(sh)) => {
